@@ -55,7 +55,8 @@ def add_implicit_hydrogens(graph: nx.Graph) -> nx.Graph:
         # h_cnt can be negative; aromaticity is complicated, we just ignore that
         valence = valence_table[n_sym]
         h_cnt = int(np.min([8, 2 * valence]) - valence - bond_cnt)
-        for h_id in range(len(graph), len(graph) + h_cnt):
+        next_id = max(graph.nodes) + 1
+        for h_id in range(next_id, next_id + h_cnt):
             node_attributes = {SYMBOL_KEY: "H"}
             edge_attributes = {BOND_KEY: 1}
             graph.add_node(h_id, **node_attributes)
